@@ -21,6 +21,7 @@ type op struct {
 	Z   bool   `json:"z,omitempty"`   // all-zero payload
 	Ow  int    `json:"ow,omitempty"`  // overwrite that many trailing entries (new term)
 	Tb  bool   `json:"tb,omitempty"`  // bump the term
+	Vo  bool   `json:"vo,omitempty"`  // change the vote within the current term
 	C   int    `json:"c,omitempty"`   // commit advance / snapshot position selector
 	V   int    `json:"v,omitempty"`   // vote
 }
@@ -104,6 +105,10 @@ func genOps(r *core.Rand, n int, seg int64) []op {
 			o = op{K: "hs", C: 1 + r.Intn(3)}
 		case x < 76:
 			o = op{K: "vote", Tb: true, V: r.Intn(4)}
+			if r.Intn(3) == 0 {
+				// the vote alone changes (a node that learnt the term earlier grants now)
+				o = op{K: "vote", V: 1 + r.Intn(3), Vo: true}
+			}
 		case x < 88:
 			o = op{K: "snap", Sz: r.Intn(4 * sector), C: r.Intn(1000)}
 		case x < 93:
@@ -242,6 +247,12 @@ func (m *model) planSave(o op) (st raftpb.HardState, ents []raftpb.Entry, oblige
 	if o.Tb || o.Ow > 0 {
 		st.Term++
 		st.Vote = uint64(o.V)
+	}
+	if o.Vo {
+		st.Vote = uint64(o.V)
+		if st.Vote == prev.Vote {
+			st.Vote = prev.Vote%3 + 1
+		}
 	}
 	if lt := m.termAt[m.last]; st.Term < lt {
 		st.Term = lt
